@@ -10,16 +10,20 @@ package main
 //   recv ...  the byte stream the server sent, the callbacks, the bound columns -> callback trace,
 //             class of the returned error (errors.As / errors.Is results for exceptions), final columns
 //   enc ...   the script as a description -> the bytes (the model's server against proto's encoders)
+//   encf ...  the same with every compressed block cut into frames (cut points, a method per frame)
 // Direct oracle (well-formed scripts): the trace/return value expected from the script alone,
 // computed here without decoding anything, against what the callbacks saw.
 
 import (
+	"bytes"
 	"context"
+	"encoding/binary"
 	"errors"
 	"fmt"
 	"math/rand"
 	"os"
 	"regexp"
+	"sort"
 	"strconv"
 	"strings"
 	"time"
@@ -77,9 +81,14 @@ type c03Pkt struct {
 	logs     []c03Log
 	peBad    bool   // the value column has a type ProfileEvents.All rejects
 	raw      []byte // kind raw: bytes put on the wire as they are
-	split    int    // compressed blocks: number of frames the block is cut into
+	split    int    // compressed blocks: number of frames the block is cut into (1..4)
+	cutSeed  int64  // compressed blocks: seed of the cut points and frame methods (drawn from h.R)
 	off, end int    // position of the packet in the stream
 	frames   [][2]int
+	fspec    string   // how the block was framed, for the encf line: ((m n) ... mlast)
+	fcomp    []string // (m x<payload> x<compressed>) for every frame written
+	cutKinds []string // statistics: what the cut points hit
+	foreign  bool     // some frame was written with another method than the case's
 }
 
 type c03HSpec struct {
@@ -347,6 +356,16 @@ func c03Gen(h *H, specs []c14ColSpec) *c03Case {
 		used[n] = true
 		names = append(names, n)
 	}
+	if cs.comp != ch.CompressionDisabled && h.R.Intn(3) == 0 {
+		// columns whose encoding has offsets and strings a frame boundary can fall into
+		want := c03FrameTypes[h.R.Intn(len(c03FrameTypes))]
+		for _, sp := range specs {
+			if sp.typ == want {
+				schema[h.R.Intn(len(schema))] = sp
+				break
+			}
+		}
+	}
 	switch k := h.R.Intn(12); {
 	case k == 0:
 		cs.tkind = "nil"
@@ -426,8 +445,12 @@ func c03Gen(h *H, specs []c14ColSpec) *c03Case {
 		if p == nil {
 			return nil
 		}
-		if cs.comp != ch.CompressionDisabled && h.R.Intn(4) == 0 {
-			p.split = 2 + h.R.Intn(3)
+		if cs.comp != ch.CompressionDisabled && (p.kind == "data" || p.kind == "totals") {
+			// 1..4 frames; the cut points and the method of every frame are drawn in c03Encode from cutSeed
+			p.cutSeed = h.R.Int63()
+			if h.R.Intn(5) < 3 {
+				p.split = 2 + h.R.Intn(3)
+			}
 		}
 		cs.packets = append(cs.packets, p)
 	}
@@ -545,15 +568,29 @@ func c03Encode(cs *c03Case) error {
 			// what a ClickHouse server does (not what the library believes): only Data / Totals /
 			// Extremes blocks go through the compressed stream; Log and ProfileEvents never do
 			if cs.comp != ch.CompressionDisabled && (p.kind == "data" || p.kind == "totals") {
-				parts := c03Split(blk.Buf, p.split)
-				for _, part := range parts {
-					w := compress.NewWriter(0, cs.method)
+				parts, methods := c03Frames(cs, p, blk.Buf)
+				var spec []string
+				for i, part := range parts {
+					w := compress.NewWriter(0, methods[i])
 					if err := w.Compress(part); err != nil {
 						return err
 					}
 					p.frames = append(p.frames, [2]int{len(b.Buf), len(w.Data)})
 					b.Buf = append(b.Buf, w.Data...)
+					ms := c03MethodSym(methods[i])
+					if i+1 < len(parts) {
+						spec = append(spec, sx(ms, strconv.Itoa(len(part))))
+					} else {
+						spec = append(spec, ms)
+					}
+					if methods[i] != cs.method {
+						p.foreign = true
+					}
+					if methods[i] != compress.None {
+						p.fcomp = append(p.fcomp, sx(ms, hx(part), hx(w.Data[25:])))
+					}
 				}
+				p.fspec = sx(spec...)
 			} else {
 				b.Buf = append(b.Buf, blk.Buf...)
 			}
@@ -564,20 +601,160 @@ func c03Encode(cs *c03Case) error {
 	return nil
 }
 
-func c03Split(b []byte, n int) [][]byte {
-	if n <= 1 || len(b) < n {
-		return [][]byte{b}
+// column kinds whose encoding holds offsets and strings (no column state in front of the data)
+var c03FrameTypes = []string{"String", "Array(String)", "Array(UInt32)", "Map(String,String)", "Nullable(String)", "Array(Nullable(String))", "Array(UUID)"}
+
+func c03MethodSym(m compress.Method) string {
+	switch m {
+	case compress.LZ4:
+		return "lz4"
+	case compress.LZ4HC:
+		return "lz4hc"
+	case compress.ZSTD:
+		return "zstd"
 	}
-	var out [][]byte
-	step := len(b) / n
-	for i := 0; i < n; i++ {
-		lo, hi := i*step, (i+1)*step
-		if i == n-1 {
-			hi = len(b)
+	return "none"
+}
+
+// c03Frames cuts the encoding of one block into p.split frames: the cut points are uniform or aimed at the
+// inside of an offsets array, a string, a length prefix or the block header; two equal cut points make a frame
+// with an empty payload; the last frame is never empty (a server has no reason to send one and the decoder
+// would not ask for it).  Every frame has a method of its own now and then.
+func c03Frames(cs *c03Case, p *c03Pkt, buf []byte) ([][]byte, []compress.Method) {
+	r := rand.New(rand.NewSource(p.cutSeed))
+	n := p.split
+	if n < 1 {
+		n = 1
+	}
+	if len(buf) < 2 {
+		n = 1
+	}
+	type aim struct {
+		pos  int
+		kind string
+	}
+	var aims, deep []aim
+	if n > 1 {
+		for _, a := range c03CutAims(cs, p, buf, r) {
+			if a.pos > 0 && a.pos < len(buf) {
+				aims = append(aims, aim{a.pos, a.kind})
+				if a.kind == "offsets" || a.kind == "string" || a.kind == "string-length" {
+					deep = append(deep, aim{a.pos, a.kind})
+				}
+			}
 		}
-		out = append(out, b[lo:hi])
 	}
-	return out
+	var cuts []int
+	for i := 0; i+1 < n; i++ {
+		switch k := r.Intn(8); {
+		case k == 0 && len(cuts) > 0:
+			cuts = append(cuts, cuts[r.Intn(len(cuts))]) // an empty payload
+			p.cutKinds = append(p.cutKinds, "empty")
+		case k <= 4 && len(aims) > 0:
+			a := aims[r.Intn(len(aims))]
+			if len(deep) > 0 && r.Intn(3) != 0 {
+				a = deep[r.Intn(len(deep))] // inside offsets / a string / a length prefix
+			}
+			cuts = append(cuts, a.pos)
+			p.cutKinds = append(p.cutKinds, a.kind)
+		case k == 5:
+			cuts = append(cuts, 0) // an empty first frame
+			p.cutKinds = append(p.cutKinds, "empty")
+		default:
+			cuts = append(cuts, r.Intn(len(buf))) // < len(buf): the last frame is not empty
+			p.cutKinds = append(p.cutKinds, "uniform")
+		}
+	}
+	sort.Ints(cuts)
+	var parts [][]byte
+	lo := 0
+	for _, c := range cuts {
+		parts = append(parts, buf[lo:c])
+		lo = c
+	}
+	parts = append(parts, buf[lo:])
+	methods := make([]compress.Method, len(parts))
+	mixed := r.Intn(3) == 0
+	all := []compress.Method{compress.LZ4, compress.ZSTD, compress.None, compress.LZ4HC}
+	for i := range methods {
+		methods[i] = cs.method
+		if mixed {
+			methods[i] = all[r.Intn(len(all))]
+		}
+	}
+	if mixed && len(parts) > 1 {
+		p.cutKinds = append(p.cutKinds, "mixed-methods")
+	}
+	return parts, methods
+}
+
+type c03Aim struct {
+	pos  int
+	kind string
+}
+
+// c03CutAims finds places inside the encoded block where a frame boundary is most likely to hurt: inside the
+// block header, inside a column header, inside the offsets of an Array / Map column, inside a string and inside
+// a string's length prefix.  The layout is recovered from the column headers (name, type) found in order.
+func c03CutAims(cs *c03Case, p *c03Pkt, buf []byte, r *rand.Rand) []c03Aim {
+	var aims []c03Aim
+	aims = append(aims, c03Aim{1 + r.Intn(3), "block-header"})
+	pos := 0
+	for _, c := range p.cols {
+		var hb proto.Buffer
+		hb.PutString(c.name)
+		hb.PutString(string(c.col.Type()))
+		i := bytes.Index(buf[pos:], hb.Buf)
+		if i < 0 {
+			break
+		}
+		start := pos + i
+		aims = append(aims, c03Aim{start + 1 + r.Intn(len(hb.Buf)-1), "column-header"})
+		pos = start + len(hb.Buf)
+		if proto.FeatureCustomSerialization.In(cs.rev) {
+			pos++
+		}
+		ty := string(c.col.Type())
+		if p.rows == 0 || strings.Contains(ty, "LowCardinality") || strings.Contains(ty, "JSON") {
+			continue
+		}
+		data := pos
+		strs := -1 // where a run of strings starts
+		nstr := 0
+		switch {
+		case strings.HasPrefix(ty, "Array(") || strings.HasPrefix(ty, "Map("):
+			if data+8*p.rows > len(buf) {
+				continue
+			}
+			aims = append(aims, c03Aim{data + 1 + r.Intn(8*p.rows-1), "offsets"})
+			total := int(binary.LittleEndian.Uint64(buf[data+8*(p.rows-1):]))
+			switch ty {
+			case "Array(String)", "Map(String,String)":
+				strs, nstr = data+8*p.rows, total
+			case "Array(Nullable(String))":
+				strs, nstr = data+8*p.rows+total, total
+			}
+		case ty == "String":
+			strs, nstr = data, p.rows
+		case ty == "Nullable(String)":
+			strs, nstr = data+p.rows, p.rows
+		}
+		q := strs
+		for k := 0; strs >= 0 && k < nstr && q < len(buf); k++ {
+			l, w := binary.Uvarint(buf[q:])
+			if w <= 0 || q+w+int(l) > len(buf) {
+				break
+			}
+			if w > 1 && r.Intn(2) == 0 {
+				aims = append(aims, c03Aim{q + 1, "string-length"})
+			}
+			if l >= 2 && r.Intn(3) != 0 {
+				aims = append(aims, c03Aim{q + w + 1 + r.Intn(int(l)-1), "string"})
+			}
+			q += w + int(l)
+		}
+	}
+	return aims
 }
 
 // oracle tables for the frames as they are in the final stream (after any alteration)
@@ -996,7 +1173,7 @@ func c03Line(cs *c03Case, t c03Tables) string {
 		sx(hs...), target, sx(probes...), sx(infer...), hx(cs.stream), sx(t.hashes...), sx(t.codecs...))
 }
 
-func c03EncLine(cs *c03Case, t c03Tables) string {
+func c03EncLines(cs *c03Case, t c03Tables, framed bool) string {
 	var ps []string
 	for _, p := range cs.packets {
 		switch p.kind {
@@ -1024,6 +1201,18 @@ func c03EncLine(cs *c03Case, t c03Tables) string {
 			ps = append(ps, sx(p.kind, c03Bi(p.info), strconv.Itoa(p.rows), sx(cols...)))
 		}
 	}
+	if framed {
+		var frs, tab []string
+		for _, p := range cs.packets {
+			if p.fspec != "" {
+				frs = append(frs, p.fspec)
+			} else {
+				frs = append(frs, "(none)")
+			}
+			tab = append(tab, p.fcomp...)
+		}
+		return fmt.Sprintf("encf %d %s %s %s %s %s %s", cs.rev, bsym(cs.comp != ch.CompressionDisabled), buildName, sx(ps...), sx(frs...), sx(tab...), sx(t.chash...))
+	}
 	m := "none"
 	switch cs.method {
 	case compress.LZ4:
@@ -1033,6 +1222,9 @@ func c03EncLine(cs *c03Case, t c03Tables) string {
 	}
 	return fmt.Sprintf("enc %d %s %s %s %s %s %s", cs.rev, bsym(cs.comp != ch.CompressionDisabled), buildName, m, sx(ps...), sx(t.ccomp...), sx(t.chash...))
 }
+
+func c03EncLine(cs *c03Case, t c03Tables) string  { return c03EncLines(cs, t, false) }
+func c03EncFLine(cs *c03Case, t c03Tables) string { return c03EncLines(cs, t, true) }
 
 // ---------------------------------------------------------------- malformed streams
 
@@ -1044,7 +1236,7 @@ func c03Mutate(h *H, cs *c03Case) bool {
 		return false
 	}
 	pick := func() *c03Pkt { return cs.packets[h.R.Intn(len(cs.packets))] }
-	switch k := h.R.Intn(9); k {
+	switch k := h.R.Intn(10); k {
 	case 0: // cut
 		cs.stream = s[:h.R.Intn(len(s))]
 		cs.note = "cut"
@@ -1094,6 +1286,23 @@ func c03Mutate(h *H, cs *c03Case) bool {
 		cs.stream = append(append(append([]byte{}, s[:i]...), ins...), s[i:]...)
 		c03Shift(cs, i, i, len(ins))
 		cs.note = "insert"
+	case 9: // a frame without payload BEHIND the last frame of a compressed block: the decoder has what it needs and
+		// never asks for it, so it is taken for the next packet (why the theorems ask for a non-empty last payload)
+		var p *c03Pkt
+		for i := 0; i < 8 && (p == nil || len(p.frames) == 0); i++ {
+			p = pick()
+		}
+		if p == nil || len(p.frames) == 0 {
+			return false
+		}
+		w := compress.NewWriter(0, []compress.Method{compress.LZ4, compress.ZSTD, compress.None}[h.R.Intn(3)])
+		if err := w.Compress(nil); err != nil {
+			return false
+		}
+		cs.stream = append(append(append([]byte{}, s[:p.end]...), w.Data...), s[p.end:]...)
+		c03Shift(cs, p.end, p.end, len(w.Data))
+		p.frames = append(p.frames, [2]int{p.end, len(w.Data)})
+		cs.note = "trailing-empty-frame"
 	default: // a second copy of one packet
 		p := pick()
 		cs.stream = append(append(append([]byte{}, s[:p.end]...), s[p.off:p.end]...), s[p.end:]...)
@@ -1243,6 +1452,14 @@ func c03Emit(h *H, cs *c03Case, withEnc bool) {
 	h.Stat(fmt.Sprintf("events.%s", c03Bucket(len(run.events))))
 	if cs.comp != ch.CompressionDisabled {
 		h.Stat("compressed")
+		for _, p := range cs.packets {
+			if len(p.frames) > 0 {
+				h.Stat(fmt.Sprintf("frames.%d", len(p.frames)))
+			}
+			for _, k := range p.cutKinds {
+				h.Stat("cut." + k)
+			}
+		}
 	}
 	if cs.wf {
 		h.Stat("wellformed")
@@ -1250,10 +1467,13 @@ func c03Emit(h *H, cs *c03Case, withEnc bool) {
 		h.Stat("malformed." + cs.note)
 	}
 	if withEnc {
-		single := true
+		single, hasRaw := true, false
 		for _, p := range cs.packets {
-			if len(p.frames) > 1 || p.kind == "raw" {
+			if len(p.frames) > 1 || p.kind == "raw" || p.foreign {
 				single = false
+			}
+			if p.kind == "raw" {
+				hasRaw = true
 			}
 		}
 		if single {
@@ -1261,6 +1481,13 @@ func c03Emit(h *H, cs *c03Case, withEnc bool) {
 			if len(el) < maxLine {
 				h.Emit(el, "ok "+hx(cs.stream), "-")
 				h.Stat("enc")
+			}
+		} else if !hasRaw {
+			// the model's framed server (encode_packets_fr) against the bytes of the real encoders and compress.Writer
+			el := c03EncFLine(cs, t)
+			if len(el) < maxLine {
+				h.Emit(el, "ok "+hx(cs.stream), "-")
+				h.Stat("encf")
 			}
 		}
 	}
